@@ -135,7 +135,9 @@ func wholeFileVariants(src string, toks []RTok) []layoutVariant {
 		}
 		return t.Text
 	})})
-	for name, cm := range map[string]string{"doc-comment-every-gap": "/** d **/", "star-only-comment-every-gap": "/***/", "empty-comment-every-gap": "/**/", "slash-star-inside-comment-every-gap": "/*/ x /* y */"} {
+	for name, cm := range map[string]string{"doc-comment-every-gap": "/** d **/", "star-only-comment-every-gap": "/***/", "empty-comment-every-gap": "/**/", "slash-star-inside-comment-every-gap": "/*/ x /* y */",
+		// comment texts outside ASCII (two- and three-byte characters): positions are bytes or characters, the end of the comment is where its terminator stands
+		"non-ascii-comment-every-gap": "/* \u00e9t\u00e9 \u2713 */", "non-ascii-only-comment-every-gap": "/*\u00fc*/", "four-byte-comment-every-gap": "/* \U0001F600 ok */"} {
 		cm := cm
 		out = append(out, layoutVariant{name, -1, joinToks(toks, func(i int, t RTok) string {
 			if t.Kind != RSpace && t.Kind != REOF && t.Kind != RComment && i > 0 {
@@ -177,6 +179,12 @@ func wholeFileVariants(src string, toks []RTok) []layoutVariant {
 			return t.Text
 		})})
 	}
+	out = append(out, layoutVariant{"non-ascii-line-comment-every-line", -1, joinToks(toks, func(i int, t RTok) string {
+		if t.Kind == RNewline {
+			return " // gr\u00fc\u00dfe \u2713" + t.Text
+		}
+		return t.Text
+	})})
 	out = append(out, layoutVariant{"multiline-block-comment-every-gap", -1, joinToks(toks, func(i int, t RTok) string {
 		if t.Kind != RSpace && t.Kind != REOF && t.Kind != RComment && i > 0 {
 			return "/* m\n   l */" + t.Text
